@@ -542,8 +542,11 @@ def write_evidence(run, violations, known_hits, rule, assumptions, extra=None):
         cov.update(extra)
     doc = {'property_id': run.prop, 'tier': run.tier, 'seed': run.seed, 'level': 'model_checking', 'coverage': cov,
            'assumptions': assumptions, 'wall_s': round(time.time() - run.t0, 1), 'violations': violations}
-    os.makedirs(os.path.join(ROOT, 'evidence'), exist_ok=True)
-    p = os.path.join(ROOT, 'evidence', run.prop + '.json')
+    evdir = os.path.join(ROOT, 'evidence')
+    if os.environ.get('VERIF_NOEVIDENCE'):      # evaluation of seeded changes must not overwrite the committed evidence
+        evdir = os.path.join(run.dir, 'evidence')
+    os.makedirs(evdir, exist_ok=True)
+    p = os.path.join(evdir, run.prop + '.json')
     tmp = p + '.tmp'
     json.dump(doc, open(tmp, 'w'), indent=1)
     os.replace(tmp, p)
@@ -593,7 +596,7 @@ def run_check(prop, tier, seed):
                 continue
             cands.setdefault(mismatch_key(c['m']), c)
         violations, known_hits, unrepro = [], [], 0
-        outdir = os.path.join(ROOT, 'replays')
+        outdir = os.path.join(ROOT, 'replays') if not os.environ.get('VERIF_NOEVIDENCE') else os.path.join(tempfile.gettempdir(), 'verif-replays')
         # confirm a handful of distinct candidates (each costs a re-execution + one TLC run), in parallel
         todo = list(cands.items())[:16]
 
